@@ -30,21 +30,37 @@ SPEC_ENV = {}
 AXIOMS = {}
 
 
-def sp_ri(eng, st, cur, rx, sstack, estack):
-    """Representation invariant of FortranAST's open-scope state."""
+def sp_ri(eng, st, cur, rx, sstack, estack, none_scope):
+    """Representation invariant of FortranAST's open-scope state: a scope is open iff an END regex is registered,
+    the two stacks have the same height, and the implicit top-level scope, once created, stays at the bottom of
+    the open scopes until the file is closed."""
     d = eng.decls
-    return V(BOOL, And(Eq(d.is_some(cur.t), d.is_some(rx.t)), Eq(Len(sstack.t), Len(estack.t)),
-                       Implies(Not(d.is_some(cur.t)), Eq(Len(sstack.t), IntVal(0)))))
+    ns = d.opt_val(none_scope.t)
+    bottom = Or(And(Eq(cur.t, none_scope.t), Eq(Len(sstack.t), IntVal(0))),
+                And(Ge(Len(sstack.t), IntVal(1)), Eq(smt.At(sstack.t, IntVal(0)), ns)))
+    basic = And(Eq(d.is_some(cur.t), d.is_some(rx.t)), Eq(Len(sstack.t), Len(estack.t)),
+                Implies(Not(d.is_some(cur.t)), Eq(Len(sstack.t), IntVal(0))))
+    return V(BOOL, basic), V(BOOL, Implies(d.is_some(none_scope.t), bottom))
 
 
-SPEC_ENV["ri"] = sp_ri
+def sp_ri_basic(eng, st, *a):
+    return sp_ri(eng, st, *a)[0]
+
+
+def sp_ri_none(eng, st, *a):
+    return sp_ri(eng, st, *a)[1]
+
+
+SPEC_ENV["ri"] = sp_ri_basic
+SPEC_ENV["ri_none"] = sp_ri_none
 
 
 def build(reg):
     """Scopes and regexes are modelled by integer identities; method calls on the current scope only need it to exist."""
     fields = {"self.current_scope": TOpt(INT), "self.end_scope_regex": TOpt(INT), "self.scope_stack": TSeq(INT),
               "self.end_stack": TSeq(INT), "self.none_scope": TOpt(INT)}
-    RI = "ri(self.current_scope, self.end_scope_regex, self.scope_stack, self.end_stack)"
+    RI = "ri(self.current_scope, self.end_scope_regex, self.scope_stack, self.end_stack, self.none_scope)"
+    RIN = "ri_none(self.current_scope, self.end_scope_regex, self.scope_stack, self.end_stack, self.none_scope)"
 
     def on_current(eng, st, node, args, kwargs):
         cur = eng.heap_get(st, ("self", "current_scope"))
@@ -57,6 +73,8 @@ def build(reg):
     def m_create_none_scope(eng, st, node, args, kwargs):
         # create_none_scope(): requires no open scope; afterwards the none scope is the current one
         d = eng.decls
+        old_ns = eng.heap_get(st, ("self", "none_scope"))
+        eng.may_raise(st, Not(d.is_some(old_ns.t)), "ValueError", "self.create_none_scope()")
         ns = d.fresh("none_scope_id", smt.INT)
         rx = d.fresh("none_scope_regex", smt.INT)
         eng.heap_set(st, ("self", "none_scope"), V(TOpt(INT), d.some(ns)))
@@ -69,8 +87,9 @@ def build(reg):
         f"{FAST}.add_scope", prop="C03", receiver_cls="FortranAST",
         params={"new_scope": INT, "end_scope_regex": TOpt(INT), "exportable": BOOL, "req_container": BOOL},
         fields=fields,
-        requires=[("ri", RI), ("regex_given", "end_scope_regex is not None")],
-        ensures=[("ri", RI), ("opens", "self.current_scope == new_scope")],
+        requires=[("ri", RI), ("ri_none", RIN), ("regex_given", "end_scope_regex is not None"),
+                  ("fresh_scope", "self.none_scope is None or self.none_scope != new_scope")],
+        ensures=[("ri", RI), ("ri_none", RIN), ("opens", "self.current_scope == new_scope")],
         modifies=["self.current_scope", "self.end_scope_regex", "self.scope_stack", "self.end_stack", "self.none_scope"],
         calls={"self.scope_list.append": FrameCall(), "new_scope.require_inherit": m_true,
                "new_scope.require_link": m_true, "self.inherit_objs.append": FrameCall(),
@@ -85,8 +104,9 @@ def build(reg):
         short="FortranAST.add_scope"))
     reg.add(Contract(
         f"{FAST}.end_scope", prop="C03", receiver_cls="FortranAST", params={"line_number": INT, "check": BOOL},
-        fields=fields, requires=[("ri", RI), ("open_or_checked", "check or self.current_scope is not None")],
-        ensures=[("ri", RI)],
+        fields=fields, requires=[("ri", RI), ("ri_none", RIN), ("open_or_checked", "check or self.current_scope is not None")],
+        # close_file ends the implicit top-level scope too (check=False); during parsing it stays at the bottom
+        ensures=[("ri", RI), ("ri_none", f"implies(check, {RIN})")],
         modifies=["self.current_scope", "self.end_scope_regex", "self.scope_stack", "self.end_stack"],
         calls={"self.current_scope.end": on_current, "self.end_errors.append": FrameCall(),
                "self.get_enc_scope_name": FrameCall(result=JSON)},
@@ -243,6 +263,8 @@ CRAFTED = ["#define X 1 \\\n\n", "#define X a\\qb\ncall X\n", "procedure(foo) ::
            "type, extends( :: t\n", "integer, dimension( :: x\n", "use, intrinsic\n", "#include\n",
            "10 continue\n      do 10 i=1,2\n", "interface\nend\n", "module procedure\n", "#define A B\n#define B A\nA\n",
            "select type(\n", "where (\n", "enum, bind(c\n", "character(len=*, kind=\n", "function f( result(\n",
+           "program p\nassociate(,x=>y)\nend associate\nend program p\n", "#define F(x) x\n#if F(1)\ninteger :: q\n#endif\n",
+           "integer :: a\nend\ninteger :: b\n", "integer :: a\nend\ndo i = 1, 2\nend do\n", "use m\nend\ntype t\nend type\n",
            "#ifdef\n#ifndef\n", "&\n&\n", "!> doc\ninteger :: x\n", "!! d1\n!! d2\nsubroutine s\nend subroutine s\n",
            "integer :: y !< trailing doc\n!< more\n!> next\n", ";;;\n", "implicit\n", "import\n", "generic ::\n", "x = 'abc\n", "!$omp &\n",
            "subroutine s(this)\n  import, only: a\n  import\nend subroutine s\n",
@@ -365,8 +387,11 @@ def ri_search(seed=0):
     rx = _re.compile("END")
 
     def ri(a):
-        return ((a.current_scope is None) == (a.end_scope_regex is None) and len(a.scope_stack) == len(a.end_stack)
-                and (a.current_scope is not None or len(a.scope_stack) == 0))
+        basic = ((a.current_scope is None) == (a.end_scope_regex is None) and len(a.scope_stack) == len(a.end_stack)
+                 and (a.current_scope is not None or len(a.scope_stack) == 0))
+        bottom = a.none_scope is None or (a.current_scope is a.none_scope and not a.scope_stack) \
+            or (len(a.scope_stack) >= 1 and a.scope_stack[0] is a.none_scope)
+        return basic and bottom
     for trial in range(200):
         a = FortranAST(FortranFile())
         hist = []
